@@ -44,8 +44,8 @@ def assert_stmt(expression1, expression2):
   if not callable(expression2):
     raise ValueError('{} must be a callable'.format(expression2))
   # (dime10) replacement for tf_inspect.getargspec
-  args, _, keywords, _ = inspect.getargspec(expression2)
-  if args or keywords:
+  argspec = inspect.getfullargspec(expression2)
+  if argspec.args or argspec.varkw:
     raise ValueError('{} may not have any arguments'.format(expression2))
 
   ### Implement your own operator here. ###
